@@ -3,10 +3,12 @@ package pgp1
 import (
 	"bytes"
 	"crypto"
+	"crypto/rsa"
 	"encoding/binary"
 	"errors"
 	"fmt"
 	"math/rand/v2"
+	"strings"
 	"sync"
 
 	"golang.org/x/crypto/openpgp"
@@ -140,8 +142,13 @@ func c44MPILengthClasses(m *mon.M, ks *keyset) {
 		{"elgamal:1024", "pkesk", "GDS1", 128, 50},
 		{"elgamal:2048", "pkesk", "GDSA", 256, 25},
 		{"rsa:1024", "rsa", "GOC", 128, 50},
+		// moduli whose bit length is not a multiple of 8 (keys local to this stream,
+		// unknown to gpg): the top octet of the modulus is 2..3 resp. 4..7, so a
+		// quarter to a half of all signature values are at least one octet short
+		{"rsa:1026", "rsa", "local:1026", 129, 40},
+		{"rsa:1027", "rsa", "local:1027", 129, 40},
 	}
-	perKind := map[string]int{"ecdsa:P-521": m.N(8, 40), "ecdsa:P-256": m.N(80, 800), "ecdsa:P-384": m.N(80, 800), "dsa:q160": m.N(80, 800), "dsa:q256": m.N(80, 400), "elgamal:1024": m.N(80, 400), "elgamal:2048": m.N(12, 100), "rsa:1024": m.N(80, 400)}
+	perKind := map[string]int{"ecdsa:P-521": m.N(8, 40), "ecdsa:P-256": m.N(80, 800), "ecdsa:P-384": m.N(80, 800), "dsa:q160": m.N(80, 800), "dsa:q256": m.N(80, 400), "elgamal:1024": m.N(80, 400), "elgamal:2048": m.N(12, 100), "rsa:1024": m.N(80, 400), "rsa:1026": m.N(16, 100), "rsa:1027": m.N(16, 100)}
 	var schedule []mpiKind
 	for _, k := range kinds { // P-521 first: its cases land in every batch
 		for j := 0; j < perKind[k.name]; j++ {
@@ -164,7 +171,18 @@ func c44MPILengthClasses(m *mon.M, ks *keyset) {
 	}
 	m.Cases("mpi-length-classes", len(schedule), func(i int64, r *rand.Rand) {
 		kd := schedule[i]
-		k := ks.byName(kd.key)
+		var k *key
+		pub := openpgp.KeyRing(ks.pub)
+		if strings.HasPrefix(kd.key, "local:") {
+			var err error
+			if k, err = c44LocalRSA(kd.key); err != nil {
+				m.Violation("go-made:newentity-error:"+kd.name, map[string]any{"kind": kd.name, "err": err.Error()})
+				return
+			}
+			pub = openpgp.EntityList{k.ent}
+		} else {
+			k = ks.byName(kd.key)
+		}
 		h := crypto.SHA256
 		if k.minHash > 256 {
 			h = crypto.SHA512
@@ -224,7 +242,7 @@ func c44MPILengthClasses(m *mon.M, ks *keyset) {
 					nontrivial = true
 				}
 				if nontrivial || j%8 == 0 {
-					who, verr := openpgp.CheckDetachedSignature(ks.pub, bytes.NewReader(data), bytes.NewReader(sig))
+					who, verr := openpgp.CheckDetachedSignature(pub, bytes.NewReader(data), bytes.NewReader(sig))
 					m.Count("mpi_class_reread:"+kd.name+":"+class, 1)
 					if verr != nil || who == nil || who.PrimaryKey.KeyId != k.ent.PrimaryKey.KeyId {
 						wit["err"] = fmt.Sprint(verr)
@@ -235,14 +253,14 @@ func c44MPILengthClasses(m *mon.M, ks *keyset) {
 				if class == "leading-zero-octet" {
 					// what a canonical writer (gpg) emits for this value: leading zero stripped
 					canon := rsaStripLeadingZero(sig, f)
-					who, verr := openpgp.CheckDetachedSignature(ks.pub, bytes.NewReader(data), bytes.NewReader(canon))
+					who, verr := openpgp.CheckDetachedSignature(pub, bytes.NewReader(data), bytes.NewReader(canon))
 					m.Count("mpi_class_reread:"+kd.name+":shortened-value", 1)
 					if verr != nil || who == nil {
 						wit["err"], wit["canonical_signature"] = fmt.Sprint(verr), mon.FullHex(canon)
 						m.Violation("sig-packet-not-reread:"+kd.name+":shortened-value", wit)
 					}
 				}
-				if (nontrivial || class == "r=s") && wantGPG(kd.name, class) {
+				if (nontrivial || class == "r=s") && !strings.HasPrefix(kd.key, "local:") && wantGPG(kd.name, class) {
 					res := ks.g.run(tGpgOps, nil, "--verify", ks.g.file("sig", sig), ks.g.file("dat", data))
 					m.Count("gpg_verified_mpi_class_samples", 1)
 					m.Count("gpg_verified_mpi_class:"+kd.name+":"+class, 1)
@@ -391,7 +409,34 @@ func c44MPIClassGates(m *mon.M) {
 		m.Gate("mpi_class:"+k+":r=s", full, "both MPIs of full length: "+k)
 	}
 	m.Gate("mpi_class:rsa:1024:leading-zero-octet", m.N(2, 20), "RSA signature value with a leading zero octet (re-read as written and in shortened canonical form)")
+	m.Gate("mpi_class:rsa:1026:leading-zero-octet", m.N(60, 400), "RSA signature values with a leading zero octet under a 1026-bit modulus (re-read as written and in shortened canonical form)")
+	m.Gate("mpi_class:rsa:1027:leading-zero-octet", m.N(30, 200), "RSA signature values with a leading zero octet under a 1027-bit modulus (re-read as written and in shortened canonical form)")
 	m.Gate("gpg_verified_unequal_or_short_mpi_samples", 2, "gpg read products whose MPIs differ in length")
 	m.Gate("gpg_verified_mpi_class_samples", 5, "gpg read a sample of the MPI length classes")
 	m.Gate("gpg_made_unequal_mpi_lengths", m.N(1, 20), "gpg-made ECDSA P-521 signatures with len(r) != len(s) verified here")
+}
+
+
+// c44LocalRSA makes (once per process) an RSA entity with an odd modulus size
+// through the package's own NewEntity.
+var c44LocalKeys sync.Map
+
+func c44LocalRSA(name string) (*key, error) {
+	if v, ok := c44LocalKeys.Load(name); ok {
+		return v.(*key), nil
+	}
+	bits := 1026
+	if name == "local:1027" {
+		bits = 1027
+	}
+	e, err := openpgp.NewEntity(strings.ReplaceAll(name, ":", ""), "", "local@example.com", &packet.Config{Time: fixedTime(tKeys), RSABits: bits})
+	if err != nil {
+		return nil, err
+	}
+	if n := e.PrimaryKey.PublicKey.(*rsa.PublicKey).N.BitLen(); n != bits {
+		return nil, fmt.Errorf("NewEntity(RSABits=%d) made a %d-bit modulus", bits, n)
+	}
+	k := &key{name: name, origin: "go", ent: e, signAlgo: "RSA", encAlgo: "RSA"}
+	v, _ := c44LocalKeys.LoadOrStore(name, k)
+	return v.(*key), nil
 }
